@@ -116,6 +116,18 @@ func verifIsDir(real string) bool {
 	return d
 }
 
+// os.Getwd stub (the unchanged library never asks): the working directory is any of a few
+// spellings -- inside the root, outside it, or a path THROUGH a link (the resolver may map it
+// anywhere) -- fixed for the duration of one load.
+var verifCwd string
+
+func vStub_os_Getwd() (string, error) {
+	if verifCwd == "" {
+		verifCwd = []string{"/a", "/b", "/a/b", "/", "/ab"}[vndChoice("cwd", 5)]
+	}
+	return verifCwd, nil
+}
+
 func vStub_os_Stat(name string) (fs.FileInfo, error) {
 	real, err := vStub_path_filepath_EvalSymlinks(filepath.Clean(name))
 	if err != nil {
@@ -167,6 +179,7 @@ func verifInside(p, r string) bool {
 
 func VerifC20_KRoot() {
 	verifLinks, verifReads, verifKinds, verifLastLink = nil, nil, nil, nil
+	verifCwd = ""
 	verifRLen = vParam("rlen", 3)
 	roots := []string{"/a", "a", "/", "/a/", "./a", "/a/b"}
 	root := roots[vndChoice("root", len(roots))]
